@@ -62,10 +62,31 @@ let observe (w : world) : string =
       Printf.sprintf "%d.%d%s=%s" r l k (String.concat "," sts)) keys in
   Printf.sprintf "W[%s] %s F[%s]" (String.concat " " (List.map snd objs)) (String.concat " " regs) (String.concat " " futs)
 
+(* the reference semantics (Obj/SceneGraphRef.v: ref_step): live full ids with (region, local id, parent id, avatar?),
+   sorted by full id, and the tracked regions *)
+let ref_observe (s : refst) : string =
+  let objs = List.sort compare (List.map (fun (f, o) ->
+      (i f, Printf.sprintf "%d(r%d l%d p%d %s)" (i f) (i o.x_region) (i o.x_lid) (i o.x_parent) (if o.x_av then "av" else "pr"))) s.rf_live) in
+  let tr = List.sort_uniq compare (List.map i s.rf_tracked) in
+  Printf.sprintf "L[%s] T[%s]" (String.concat " " (List.map snd objs)) (String.concat "," (List.map string_of_int tr))
+
+(* "REF <history>": the reference state after every event group, separated by " | " (the reference is total) *)
+let ref_line (line : string) : string =
+  let evs = List.filter (fun s -> String.trim s <> "") (String.split_on_char ';' line) in
+  let buf = Buffer.create 256 in
+  let _ = List.fold_left (fun s e ->
+      let s1 = List.fold_left ref_step s (parse_events (words e)) in
+      if Buffer.length buf > 0 then Buffer.add_string buf " | ";
+      Buffer.add_string buf (ref_observe s1); s1) ref_init evs in
+  Buffer.contents buf
+
 let () =
   try
     while true do
       let line = input_line stdin in
+      if String.length line >= 4 && String.sub line 0 4 = "REF " then
+        print_endline (ref_line (String.sub line 4 (String.length line - 4)))
+      else
       let evs = List.filter (fun s -> String.trim s <> "") (String.split_on_char ';' line) in
       let buf = Buffer.create 256 in
       let rec go w = function
